@@ -128,3 +128,51 @@ theorem exSpecL_fi_false (acc : Acc) (fl sup : Bool) : ∀ cs : List T, exSpecL 
 end
 
 end DendroModel.C08.Aux
+
+namespace DendroModel.C08
+open DendroModel
+-- the filter accepts every node of the tree that has children
+mutual
+def AccInner (acc : Acc) : T → Prop
+  | .node i x _ _ cs => (cs ≠ [] → acc i x = true) ∧ AccInnerL acc cs
+def AccInnerL (acc : Acc) : List T → Prop
+  | [] => True
+  | c :: cs => AccInner acc c ∧ AccInnerL acc cs
+end
+end DendroModel.C08
+
+namespace DendroModel.C08.Aux
+open DendroModel
+
+mutual
+theorem exSpec_accInner (acc : Acc) (fl fi sup : Bool) : ∀ t : T, AccInner acc t →
+    exSpec acc fl fi sup t = restrict (leafKeep fl acc) sup t
+  | .node i x l s [], _ => by
+      cases fl <;> by_cases ha : acc i x = true <;> simp [exSpec, restrict, leafKeep, ha]
+  | .node i x l s (c :: cs), h => by
+      simp only [AccInner] at h
+      have ha : acc i x = true := h.1 (by simp)
+      simp only [exSpec, restrict, exSpecL_accInner acc fl fi sup (c :: cs) h.2, ha]
+      simp
+theorem exSpecL_accInner (acc : Acc) (fl fi sup : Bool) : ∀ cs : List T, AccInnerL acc cs →
+    exSpecL acc fl fi sup cs = restrictL (leafKeep fl acc) sup cs
+  | [], _ => rfl
+  | c :: cs, h => by
+      simp only [AccInnerL] at h
+      simp only [exSpecL, restrictL, exSpec_accInner acc fl fi sup c h.1, exSpecL_accInner acc fl fi sup cs h.2]
+end
+
+mutual
+theorem accInner_taxonFilter (K : Nat → Bool) : ∀ t : T, InnerNoTaxon t → AccInner (taxonFilter K) t
+  | .node i x l s cs, h => by
+      simp only [InnerNoTaxon] at h
+      refine ⟨fun hc => ?_, accInnerL_taxonFilter K cs h.2⟩
+      rw [h.1 hc]; rfl
+theorem accInnerL_taxonFilter (K : Nat → Bool) : ∀ cs : List T, InnerNoTaxonL cs → AccInnerL (taxonFilter K) cs
+  | [], _ => trivial
+  | c :: cs, h => by
+      simp only [InnerNoTaxonL] at h
+      exact ⟨accInner_taxonFilter K c h.1, accInnerL_taxonFilter K cs h.2⟩
+end
+
+end DendroModel.C08.Aux
